@@ -33,8 +33,14 @@ fn col(w: bool) -> Color {
 }
 
 /// mode 0: side to move is a lone king (terminal positions included); mode 1: see `king_has_quiet_step`.
-fn symmetry(wtm: bool, men: &[(usize, u8)], mode: u8, which: u8, tag: &str) {
+/// `slice` < 8 fixes the file of the family's first man (the symbolic space is cut into eight queries
+/// that run in parallel); 8 = no restriction.
+fn symmetry(wtm: bool, men: &[(usize, u8)], mode: u8, which: u8, slice: u8, tag: &str) {
     let p = family(wtm, men, tag);
+    if slice < 8 {
+        let (c, k) = men[0];
+        kani::assume((p.bb[c][(k - 1) as usize].trailing_zeros() % 8) as u8 == slice);
+    }
     if mode == 1 {
         kani::assume(king_has_quiet_step(&p));
     }
@@ -63,13 +69,13 @@ macro_rules! sym_pair {
         proof_geo! {
             #[cfg_attr(kani, kani::stub(weechess_core::MoveGenerator::compute_legal_moves, $stub))]
             fn $neg() {
-                symmetry($wtm, $men, $mode, 0, concat!("c13 ", stringify!($neg)));
+                symmetry($wtm, $men, $mode, 0, 8, concat!("c13 ", stringify!($neg)));
             }
         }
         proof_geo! {
             #[cfg_attr(kani, kani::stub(weechess_core::MoveGenerator::compute_legal_moves, $stub))]
             fn $mir() {
-                symmetry($wtm, $men, $mode, 1, concat!("c13 ", stringify!($mir)));
+                symmetry($wtm, $men, $mode, 1, 8, concat!("c13 ", stringify!($mir)));
             }
         }
     };
